@@ -290,6 +290,9 @@ def step (st : St) (line : String) : St × String :=
     | ["rreadall", rid, _] => ["rreadall", rid]
     -- read_exact of N bytes that are there is one read of N bytes
     | ["rreadexact", rid, n] => ["rread", rid, n]
+    | ["lreadexact", lid, n] => ["lread", lid, n]
+    | ["lreadall", lid] => ["lread", lid, "67108864"]
+    | ["lreadall", lid, _] => ["lread", lid, "67108864"]
     | ["wcreate", f, c, w, k, a] => ["wopen", f, c, w, k, "algo=" ++ a, "size=-", "sri=-", "time=-", "meta=-", "raw=-"]
     -- a target named relative to another working directory is the file <dir>/<rel> below the scratch root
     | ["link_to_cd", f, c, k, rel, dir] => ["link_to", f, c, k, "rel:" ++ dir ++ "/" ++ rel]
@@ -564,6 +567,12 @@ def step (st : St) (line : String) : St × String :=
     match st.fs.mkdirP (parsePath p) with
     | .ok fs' => ({ st with fs := fs' }, "ok")
     | .error e => (st, "err io " ++ ekStr e)
+  | ["hardlink", p, q] =>
+    -- a second name for the file at p (the model has no inodes: the node is copied; programs that then change one
+    -- of the two names in place are implementation-only)
+    match st.fs.get (parsePath p) with
+    | some (.file b) => ({ st with fs := fsPutFile st.fs (parsePath q) b }, "ok")
+    | _ => (st, "err io notfound")
   | ["symlink", p, t] =>
     match parseTarget t with
     | some tg =>
